@@ -336,8 +336,29 @@ func init() {
 		return v, false
 	})
 	reg("(*github.com/aukilabs/hagall-common/ncsclient.NCSClient).PostReceipt", func(e *Exec, fv *FuncV, args []Value, cc *ssa.CallCommon) (Value, bool) {
-		// the credit service: records the request; reachable, slow or down = arbitrary error result
+		// the credit service: records the request; whether it then answers, fails or keeps the client waiting is the
+		// harness's plan (verifnd.NCSFail / NCSHold / NCSRelease), followed by the native recording endpoint too
 		posts, _ := e.ext["ncs.posts"].([]Value)
+		if ht, _ := e.ext["ncs.heldthread"].(*Thread); ht == e.cur {
+			// this thread's request was recorded when it arrived and is being held
+			if rel, _ := e.ext["ncs.released"].(bool); !rel {
+				e.cur.Wait = "credit service holds the request"
+				return nil, true
+			}
+			delete(e.ext, "ncs.heldthread")
+			return &IfaceV{}, false
+		}
+		if holds, _ := e.ext["ncs.hold"].(map[int]bool); holds[len(posts)] {
+			if rel, _ := e.ext["ncs.released"].(bool); !rel {
+				if e.probing {
+					panic(probeOK{}) // arriving is possible; the request then blocks
+				}
+				e.ext["ncs.posts"] = append(posts, copyVal(args[2]))
+				e.ext["ncs.heldthread"] = e.cur
+				e.cur.Wait = "credit service holds the request"
+				return nil, true
+			}
+		}
 		e.ext["ncs.posts"] = append(posts, copyVal(args[2]))
 		// whether the n-th request fails (after the service has received it) is the harness's choice
 		// (verifnd.NCSFail), so that the native recording endpoint can follow the same plan
